@@ -79,3 +79,51 @@ pub fn decode(mut idx: u64, dims: &[u64]) -> Vec<u64> {
 pub fn product(dims: &[u64]) -> u64 {
     dims.iter().fold(1u64, |a, b| a.saturating_mul((*b).max(1)))
 }
+
+/// A list of product families; `locate` maps a global index to (family, digits).
+#[derive(Default, Clone)]
+pub struct Fams {
+    pub fams: Vec<(String, Vec<u64>, u64)>,
+}
+
+impl Fams {
+    pub fn add(&mut self, name: &str, dims: Vec<u64>) -> usize {
+        let size = if dims.iter().any(|d| *d == 0) { 0 } else { product(&dims) };
+        self.fams.push((name.to_string(), dims, size));
+        self.fams.len() - 1
+    }
+    pub fn total(&self) -> u64 {
+        self.fams.iter().map(|f| f.2).sum()
+    }
+    pub fn locate(&self, mut idx: u64) -> (usize, Vec<u64>) {
+        for (i, f) in self.fams.iter().enumerate() {
+            if idx < f.2 {
+                return (i, decode(idx, &f.1));
+            }
+            idx -= f.2;
+        }
+        panic!("index out of range");
+    }
+    pub fn name(&self, i: usize) -> &str {
+        &self.fams[i].0
+    }
+    pub fn summary(&self) -> Vec<serde_json::Value> {
+        self.fams
+            .iter()
+            .map(|f| serde_json::json!({"family": f.0, "dims": f.1, "cases": f.2}))
+            .collect()
+    }
+    /// first index of each family (useful as samples)
+    pub fn starts(&self) -> Vec<u64> {
+        let mut v = vec![];
+        let mut s = 0;
+        for f in &self.fams {
+            if f.2 > 0 {
+                v.push(s);
+                v.push(s + f.2 / 2);
+            }
+            s += f.2;
+        }
+        v
+    }
+}
